@@ -7,6 +7,7 @@
      fra <value> <fraction accuracy>                                   fraction
      rat <value>                                                       star rating
      b64 <value>                                                       binary64 value "m e" of a float literal
+     exq <code points>                                                 _expand_quotes
      rbd/rbf/rbs <code points>                                         readers applied to a displayed text
      rbb <base> <code points> , rbt <base> <code points>               base readers
    <value> is Python's str(value) (int digits or float repr).  The answer is the displayed text
@@ -106,6 +107,8 @@ Definition handle (line : list N) : list N :=
                           else b64_of_rat (dmant d) (10 ^ (- dexp d)) in
            Z_to_str m ++ [c_sp] ++ Z_to_str e
     | None => [63%N] end
+  | [[101;120;113]%N; t] => out (expand_quotes (cps_of t) false)
+  | [[101;120;113]%N] => []
   | [[114;98;100]%N; t] => show_opt3 (readback_decimal (cps_of t))
   | [[114;98;102]%N; t] => show_opt4 (readback_fraction (cps_of t))
   | [[114;98;115]%N; t] =>
